@@ -106,6 +106,35 @@ def _r1(ctx):
                  % (attr, sorted({U(s[2]) for s in consts}), sorted({U(s[2]) for s in consts})))
         else:
             pair("LCD cell / LatencyLCD", False, fd.where(dv), "unrecognised dict expression %s" % U(dv))
+    # --- the same cycle is selected on both sides (ties between equally long cycles are broken by the expression)
+    def selection(fi):
+        for n in ast.walk(fi.node):
+            if isinstance(n, ast.Assign) and isinstance(n.targets[0], ast.Name) and isinstance(n.value, (ast.Call, ast.Subscript)):
+                t = U(n.value)
+                if "['latency']" in t and ("max(" in t or "min(" in t or "sorted(" in t):
+                    d = [a for a in fi.params() if a in t]
+                    txt = t
+                    for nm in pm.names_in(n.value):
+                        if nm in ("max", "min", "sorted"):
+                            continue
+                    # normalise the dict's name and the lambda parameter
+                    lam = [x for x in ast.walk(n.value) if isinstance(x, ast.Lambda)]
+                    if lam:
+                        txt = txt.replace(lam[0].args.args[0].arg, "K")
+                    return n, txt
+        return None, None
+    tn, tsel = selection(cv)
+    dn, dsel = selection(fd)
+    if tsel is not None and dsel is not None:
+        ddict = U(pm.find("M_d = %s.get_loopcarried_dependencies()" % fd.params()[2], fd.node)[0][1]["M_d"]) if pm.find(
+            "M_d = %s.get_loopcarried_dependencies()" % fd.params()[2], fd.node) else "?"
+        tsel_n = tsel.replace(cv.params()[3], "D")
+        dsel_n = dsel.replace(ddict, "D")
+        pair("LCD cell / LatencyLCD: the same cycle is selected", tsel_n == dsel_n, cv.where(tn),
+             "text selects with `%s`, dict with `%s`: among several cycles of equal maximal latency the two expressions pick "
+             "different ones, so the LCD column marks other lines than LatencyLCD" % (tsel, dsel))
+    else:
+        pair("LCD cell / LatencyLCD: the same cycle is selected", False, cv.where(), "selection of the longest cycle not found")
     # --- summary ports
     tsum = pm.find("M_t = ArchSemantics.get_throughput_sum(%s)" % cv.params()[1], cv.node)
     dsum = pm.find_any(["M_t = ArchSemantics.get_throughput_sum(%s) or %s[0].port_pressure" % (fd.params()[1], fd.params()[1]),
